@@ -91,6 +91,11 @@ class Ctx:
         self._pool = None
         self.findings = load_findings()
         self.last_drift_details = []
+        # binding self-test (selftest/binding.sh): corrupt one field of a share of the records before TLC sees them
+        self.bind_rate = float(os.environ.get("VERIF_BINDING", "0") or 0)
+        self.bind_rng = random.Random(seed + 977)
+        self.bind_corrupted = {}
+        self.bind_rejected = set()
 
     # -- scratch ----------------------------------------------------------
     def close(self):
@@ -186,6 +191,8 @@ class Ctx:
         records = list(records)
         if not records:
             return [], []
+        if self.bind_rate:
+            records = [self._corrupt(r, (i + 1) / len(records)) for i, r in enumerate(records)]
         nchunks = max(1, min(parallel, len(records) // min_chunk or 1))
         size = (len(records) + nchunks - 1) // nchunks
         chunks = [records[i:i + size] for i in range(0, len(records), size)]
@@ -231,10 +238,63 @@ class Ctx:
                 if v and v[0] == "drift":
                     drifts.append(v[1])
                     self.last_drift_details.append(tuple(v[1:]))
+        if self.bind_rate:
+            for cid in [f[0] for f in fails] + list(drifts):
+                if cid in self.bind_corrupted:
+                    self.bind_rejected.add(cid)
         self.records_validated += len(records)
         self.tlc_runs.append({"module": module, "records": len(records), "chunks": len(chunks),
                               "fails": len(fails), "drift": len(drifts)})
         return fails, drifts
+
+    # input descriptors whose shape constraints the denotations rely on (a list one element shorter is not a
+    # corrupted observation but an ill-formed case)
+    BIND_SKIP = {"id", "tid", "kind", "what", "conns", "nums", "kw", "seq", "seps", "kinds", "js", "dirs", "w"}
+
+    def _corrupt(self, rec, frac=1.0):
+        """Binding self-test: change one recorded field (flip a boolean, add one to an integer, drop the last element
+        of a list, turn exc 'none' into an exception name); dictionaries are descended into.  Event traces (records
+        with a "tid") share snapshot tables that earlier histories define, so only late events are corrupted."""
+        if not isinstance(rec, dict) or self.bind_rng.random() > self.bind_rate:
+            return rec
+        rid = rec.get("id", rec.get("tid"))
+        if rid is None or ("tid" in rec and frac < 0.6):
+            return rec
+        skip = set(x for x in os.environ.get("VERIF_BINDING_SKIP", "").split(",") if x) | self.BIND_SKIP
+        cands = []
+
+        def walk(d, path):
+            for k, v in d.items():
+                if k in skip:
+                    continue
+                if isinstance(v, dict):
+                    walk(v, path + (k,))
+                elif isinstance(v, (bool, int)) or (isinstance(v, list) and v) or (k == "exc" and v == "none"):
+                    cands.append(path + (k,))
+        walk(rec, ())
+        if not cands:
+            return rec
+        path = self.bind_rng.choice(sorted(cands))
+        new = json.loads(json.dumps(rec))
+        d = new
+        for k in path[:-1]:
+            d = d[k]
+        k = path[-1]
+        v = d[k]
+        if isinstance(v, bool):
+            d[k] = not v
+        elif isinstance(v, int):
+            d[k] = v + 1
+        elif isinstance(v, list) and isinstance(v[-1], bool):
+            d[k] = v[:-1] + [not v[-1]]
+        elif isinstance(v, list) and isinstance(v[-1], int):
+            d[k] = v[:-1] + [v[-1] + 1]
+        elif isinstance(v, list):
+            d[k] = v[:-1]
+        else:
+            d[k] = "ValueError"
+        self.bind_corrupted[rid] = ".".join(path)
+        return new
 
     # -- bookkeeping ---------------------------------------------------------
     def sample(self, obj, limit=6):
@@ -258,6 +318,17 @@ class Ctx:
     # -- finishing -----------------------------------------------------------
     def finish(self):
         """Write replay files, evidence; print verdict lines; return exit code."""
+        if self.bind_rate:
+            n, m = len(self.bind_corrupted), len(self.bind_rejected)
+            by_field = {}
+            for cid, k in self.bind_corrupted.items():
+                t = by_field.setdefault(k, [0, 0])
+                t[0] += 1
+                t[1] += cid in self.bind_rejected
+            print("BINDING property=%s corrupted=%d rejected=%d (%s) by field: %s" % (
+                self.prop, n, m, ("%d%%" % (100 * m // n)) if n else "n/a",
+                ", ".join("%s %d/%d" % (k, v[1], v[0]) for k, v in sorted(by_field.items()))))
+            return 0 if n and m * 2 >= n else 3
         os.makedirs(EVIDENCE_DIR, exist_ok=True)
         vio_paths = []
         seen = set()
